@@ -595,3 +595,18 @@ pub fn layout_hosts(thorough: bool) -> Gen<Vec<S>> {
     let n = cf.count / stride;
     Gen::or(vec![stmt_sequences(2), functions(false), Gen::new(n, move |i| cf.nth(i * stride))])
 }
+
+/// the layer generators (for C14's stride)
+pub fn program_gens(thorough: bool) -> Vec<Gen<Vec<S>>> {
+    let ex = Exprs::new(thorough);
+    vec![
+        with_preamble(&ex.num2),
+        with_preamble(&ex.str2),
+        with_preamble(&ex.bool2),
+        with_preamble(&ex.arr1),
+        cond_programs(&ex),
+        stmt_sequences(3),
+        control_flow(false),
+        functions(thorough),
+    ]
+}
